@@ -1166,7 +1166,7 @@ class MempoolFamily(SubsFamily):
                 plan.append(dict(op='on_rpc', method='getblockcount', skip=rng.randrange(3), then=[
                     dict(op='mine', n=1, ntx=[rng.randint(0, 3)], seed=rng.getrandbits(32),
                          confirm=rng.choice([0.0, 0.5, 1.0]))]))
-            if races and rng.random() < 0.15:
+            if races and rng.random() < 0.25:
                 # motif: more new transactions than fit in one fetch batch (200), the batches answered after
                 # different, long delays; while they are under way a block is found (the block processor's poll
                 # moves the cached daemon height) and transactions of the batch still outstanding are evicted
